@@ -61,7 +61,7 @@ func genMap(n int) {
 	rets := rep(n, func(i int) string { return fmt.Sprintf("p%d", i) }, ", ")
 	name := fmt.Sprintf("map%dW", n)
 	p("// ---- Map%d\n\ntype %s[%s] struct {\n\tenv *Env\n\tm *ecs.Map%d[%s]\n\tcs []ct.Comp\n}\n\n", n, name, TA, n, T)
-	p("func new%s[%s](env *Env, cs []ct.Comp) Mapper {\n\treturn &%s[%s]{env: env, m: ecs.NewMap%d[%s](env.W), cs: cs}\n}\n\n", strings.Title(name), TA, name, T, n, T)
+	p("func new%s[%s](env *Env, cs []ct.Comp) Mapper {\n\tm := ecs.NewMap%d[%s](env.W)\n\tif env.ViaNew() {\n\t\tm = (*ecs.Map%d[%s])(nil).New(env.W)\n\t}\n\treturn &%s[%s]{env: env, m: m, cs: cs}\n}\n\n", strings.Title(name), TA, n, T, n, T, name, T)
 	recv := fmt.Sprintf("func (x *%s[%s])", name, T)
 	p("%s Comps() []ct.Comp { return x.cs }\n", recv)
 	p("%s NewEntity(vals []int64, rels []RelArg) ecs.Entity {\n%s\treturn x.m.NewEntity(%s, x.env.rels(x.cs, rels)...)\n}\n", recv, vars, addrs)
@@ -94,7 +94,11 @@ type mapSW[A any] struct {
 }
 
 func newMapSW[A any](env *Env, cs []ct.Comp) Mapper {
-	return &mapSW[A]{env: env, m: ecs.NewMap[A](env.W), cs: cs}
+	m := ecs.NewMap[A](env.W)
+	if env.ViaNew() {
+		m = (*ecs.Map[A])(nil).New(env.W)
+	}
+	return &mapSW[A]{env: env, m: m, cs: cs}
 }
 
 func targets(rels []RelArg) []ecs.Entity {
@@ -187,7 +191,7 @@ func genFilter(n int) {
 	fn := fmt.Sprintf("filter%dW", n)
 	qn := fmt.Sprintf("query%dW", n)
 	p("// ---- Filter%d / Query%d\n\ntype %s%s struct {\n\tenv *Env\n\tf *ecs.Filter%d%s\n\tcs []ct.Comp\n\tall []ct.Comp\n}\n\n", n, n, fn, brA, n, br)
-	p("func new%s%s(env *Env, cs []ct.Comp) Filter {\n\treturn &%s%s{env: env, f: ecs.NewFilter%d%s(env.W), cs: cs, all: append([]ct.Comp{}, cs...)}\n}\n\n", strings.Title(fn), brA, fn, br, n, br)
+	p("func new%s%s(env *Env, cs []ct.Comp) Filter {\n\tf := ecs.NewFilter%d%s(env.W)\n\tif env.ViaNew() {\n\t\tf = (*ecs.Filter%d%s)(nil).New(env.W)\n\t}\n\treturn &%s%s{env: env, f: f, cs: cs, all: append([]ct.Comp{}, cs...)}\n}\n\n", strings.Title(fn), brA, n, br, n, br, fn, br)
 	recv := fmt.Sprintf("func (x *%s%s)", fn, br)
 	p("%s Comps() []ct.Comp { return x.cs }\n", recv)
 	p("%s With(cs ...ct.Comp) { Spread(cs, func(s []ecs.Comp) { x.f.With(s...) }); x.all = append(x.all, cs...) }\n", recv)
@@ -229,7 +233,7 @@ func genExch(n int) {
 	addrs := rep(n, func(i int) string { return fmt.Sprintf("&v%d", i) }, ", ")
 	name := fmt.Sprintf("exch%dW", n)
 	p("// ---- Exchange%d\n\ntype %s[%s] struct {\n\tenv *Env\n\tx *ecs.Exchange%d[%s]\n\tcs []ct.Comp\n\trm []ct.Comp\n}\n\n", n, name, TA, n, T)
-	p("func new%s[%s](env *Env, cs, rm []ct.Comp) Exchanger {\n\tex := ecs.NewExchange%d[%s](env.W)\n\t// Removes \"can be called multiple times in chains, or once with multiple arguments\": 2 components are\n\t// given in two chained calls, 3 or more in a chained call followed by a multi-argument call\n\tif len(rm) >= 2 {\n\t\tex = ex.Removes(compsOf(rm[:1])...)\n\t\tSpread(rm[1:], func(s []ecs.Comp) { ex = ex.Removes(s...) })\n\t} else if len(rm) == 1 {\n\t\tSpread(rm, func(s []ecs.Comp) { ex = ex.Removes(s...) })\n\t}\n\treturn &%s[%s]{env: env, x: ex, cs: cs, rm: rm}\n}\n\n", strings.Title(name), TA, n, T, name, T)
+	p("func new%s[%s](env *Env, cs, rm []ct.Comp) Exchanger {\n\tex := ecs.NewExchange%d[%s](env.W)\n\tif env.ViaNew() {\n\t\tex = (*ecs.Exchange%d[%s])(nil).New(env.W)\n\t}\n\t// Removes \"can be called multiple times in chains, or once with multiple arguments\": 2 components are\n\t// given in two chained calls, 3 or more in a chained call followed by a multi-argument call\n\tif len(rm) >= 2 {\n\t\tex = ex.Removes(compsOf(rm[:1])...)\n\t\tSpread(rm[1:], func(s []ecs.Comp) { ex = ex.Removes(s...) })\n\t} else if len(rm) == 1 {\n\t\tSpread(rm, func(s []ecs.Comp) { ex = ex.Removes(s...) })\n\t}\n\treturn &%s[%s]{env: env, x: ex, cs: cs, rm: rm}\n}\n\n", strings.Title(name), TA, n, T, n, T, name, T)
 	recv := fmt.Sprintf("func (x *%s[%s])", name, T)
 	p("%s Comps() []ct.Comp { return x.cs }\n", recv)
 	p("%s Removes() []ct.Comp { return x.rm }\n", recv)
@@ -249,7 +253,7 @@ func genObs(n int) {
 	ptrList := rep(n, func(i int) string { return fmt.Sprintf("unsafe.Pointer(p%d)", i) }, ", ")
 	name := fmt.Sprintf("obs%dW", n)
 	p("// ---- Observer%d\n\ntype %s[%s] struct {\n\tenv *Env\n\to *ecs.Observer%d[%s]\n\tcs []ct.Comp\n}\n\n", n, name, TA, n, T)
-	p("func new%s[%s](env *Env, evt ecs.EventType, cs []ct.Comp) Observer {\n\treturn &%s[%s]{env: env, o: ecs.Observe%d[%s](evt), cs: cs}\n}\n\n", strings.Title(name), TA, name, T, n, T)
+	p("func new%s[%s](env *Env, evt ecs.EventType, cs []ct.Comp) Observer {\n\to := ecs.Observe%d[%s](evt)\n\tif env.ViaNew() {\n\t\to = (*ecs.Observer%d[%s])(nil).New(evt)\n\t}\n\treturn &%s[%s]{env: env, o: o, cs: cs}\n}\n\n", strings.Title(name), TA, n, T, n, T, name, T)
 	recv := fmt.Sprintf("func (x *%s[%s])", name, T)
 	p("%s Comps() []ct.Comp { return x.cs }\n", recv)
 	p("%s For(cs ...ct.Comp) { Spread(cs, func(s []ecs.Comp) { x.o.For(s...) }) }\n", recv)
@@ -267,6 +271,8 @@ var (
 	base  = []ct.Comp{ct.P, ct.Q, ct.R1, ct.S, ct.Z, ct.L, ct.R2, ct.T7, ct.T8, ct.T9, ct.T10, ct.T11}
 	first = []ct.Comp{ct.R1, ct.P, ct.Q, ct.S, ct.Z, ct.L, ct.T7, ct.T8, ct.T9, ct.T10, ct.T11, ct.R2}
 	lastB = []ct.Comp{ct.Q, ct.P, ct.L, ct.S, ct.T9, ct.Z, ct.T7, ct.T8, ct.T10, ct.T11, ct.R1}
+	// without relation components (arity 4-10): queries over archetypes that have no relation tables
+	plain = []ct.Comp{ct.L, ct.P, ct.Z, ct.Q, ct.S, ct.T7, ct.T8, ct.T9, ct.T10, ct.T11}
 )
 
 func arityTuples(maxN, minN int) [][]ct.Comp {
@@ -279,6 +285,9 @@ func arityTuples(maxN, minN int) [][]ct.Comp {
 		out = append(out, append([]ct.Comp{}, base[:n]...))
 		out = append(out, append([]ct.Comp{}, first[:n]...))
 		out = append(out, append(append([]ct.Comp{}, lastB[:n-1]...), ct.R2))
+		if n >= 4 && n <= len(plain) {
+			out = append(out, append([]ct.Comp{}, plain[:n]...))
+		}
 	}
 	return out
 }
